@@ -60,7 +60,15 @@ func genC19(verifSeed int64, tier string, idx int) *core.Scenario {
 	}
 	ndocs := 2 + r.Intn(3)
 	for i := 0; i < ndocs; i++ {
-		d := genDoc(r, fmt.Sprintf("d%d", i), 1+r.Intn(5))
+		mn := 1 + r.Intn(5)
+		if i == 0 && r.Intn(10) == 0 {
+			// one large document (beyond any plausible fixed buffer): a few hundred KiB, in the thorough tier some MiB
+			mn = 300 + r.Intn(500)
+			if tier == "thorough" && r.Intn(3) == 0 {
+				mn = 3000 + r.Intn(3000)
+			}
+		}
+		d := genDoc(r, fmt.Sprintf("d%d", i), mn)
 		b, err := proto.MarshalOptions{Deterministic: true}.Marshal(d)
 		if err != nil {
 			panic(err)
@@ -96,7 +104,7 @@ func genC19(verifSeed int64, tier string, idx int) *core.Scenario {
 		case sp.Path2 != "" && k == 8 && r.Intn(2) == 0:
 			st = Step{K: "Repoint"}
 		default:
-			st = Step{K: "Damage", ID: r.Intn(nids), Dmg: []string{"trunc0", "truncmid", "garbage", "chmod000", "truncsmall", "garbagesmall", "flipbyte"}[r.Intn(7)], D: r.Intn(1 << 16)}
+			st = Step{K: "Damage", ID: r.Intn(nids), Dmg: []string{"trunc0", "truncmid", "garbage", "chmod000", "truncsmall", "garbagesmall", "flipbyte", "isdir"}[r.Intn(8)], D: r.Intn(1 << 16)}
 		}
 		if sp.Faulty && st.K != "Damage" && r.Intn(4) == 0 {
 			st.Fault = &FaultSpec{K: r.Intn(8), Kind: faultKinds[r.Intn(len(faultKinds))], Arg: r.Intn(40), Sticky: r.Intn(4) == 0}
@@ -281,7 +289,7 @@ func (e *env) checkOne(id, via, after string, faulted bool) string {
 		if err != nil {
 			return "err"
 		}
-		if m.damaged == "trunc0" || m.damaged == "chmod000" {
+		if m.damaged == "trunc0" || m.damaged == "chmod000" || m.damaged == "isdir" {
 			cls := "doc-without-error"
 			if isEmptyDoc(doc) {
 				cls = "empty-doc"
@@ -517,7 +525,7 @@ func (e *env) step(i int, st Step) string {
 			return "err-noclobber"
 		}
 		if err == nil {
-			m.doc, m.uncertain, m.maybe, m.damaged, m.mode000 = doc, false, nil, "", false
+			m.doc, m.uncertain, m.maybe, m.damaged, m.mode000, m.isdir = doc, false, nil, "", false, false
 			m.files = nil
 			seen := map[string]bool{}
 			for _, p := range e.disk.Journal[j0:] {
@@ -536,6 +544,8 @@ func (e *env) step(i int, st Step) string {
 			switch {
 			case m.mode000:
 				return "err-entry-unwritable"
+			case m.isdir:
+				return "err-entry-is-directory" // replacing a directory by a file is refused by the file system: a reported error, entry unchanged
 			case e.sp.DirState == "file":
 				return "err-path-is-file"
 			case e.sp.DirState == "missing" || e.sp.DirState == "missing-deep":
@@ -635,11 +645,18 @@ func (e *env) step(i int, st Step) string {
 			case "chmod000":
 				e.disk.SetMode(p, 0)
 				m.mode000 = true
+			case "isdir":
+				if e.disk.ReplaceWithDir(p, e.sp.UID) {
+					m.isdir = true
+				}
 			}
 		}
 		m.damaged = st.Dmg
 		if m.mode000 {
 			m.damaged = "chmod000" // stays unreadable whatever else happens to the bytes
+		}
+		if m.isdir {
+			m.damaged = "isdir" // a directory sits where the entry was
 		}
 		e.res.Probes["at-rest damage: "+st.Dmg]++
 		return "damaged"
@@ -681,8 +698,8 @@ func (e *env) recovery() {
 		if !m.hit && m.damaged == "" {
 			continue
 		}
-		if m.mode000 {
-			continue // an entry the user made unreadable/unwritable is the user's to repair
+		if m.mode000 || m.isdir {
+			continue // an entry the user made unreadable/unwritable (or a directory) is the user's to repair
 		}
 		doc := proto.Clone(e.docs[0]).(*sbom.Document)
 		doc.Metadata.Id = id
